@@ -43,4 +43,41 @@ theorem push_str_tie (t : Str) (s : St) (hd : DataOk s.hp) (hr : RawOk s.self)
         | error u => rw [hs2] at hub; exact absurd rfl (hub u)
         | ok r3 =>
           rt_step [hne, call_norm, hres, hrv, stepOfRes, hsl, hc1, hc2, hc3, Nat.zero_add, hwb, set_len_step, hs2, norm_next, norm_done, norm_pidx, norm_ub, resOf]
+/-- the same tie in the form a caller rewrites with -/
+theorem push_str_norm {ρ' : Type} (t : Str) (s : St) (hd : DataOk s.hp) (hr : RawOk s.self)
+    (hub : ∀ u, pushStr s.rf s.st s.hp s.self t.b ≠ .ub u) :
+    (norm (GenRepr.Repr.push_str t s) : Step ρ' (Rs Unit)) = stepOfRes s.rf s.st (pushStr s.rf s.st s.hp s.self t.b) := by
+  rcases s with ⟨rf, st, hp, r⟩
+  simp only at hub hd hr
+  unfold GenRepr.Repr.push_str
+  unfold pushStr at hub ⊢
+  by_cases he : t.b.isEmpty = true
+  · rt_step [he, norm_next, norm_done, norm_pidx, norm_palloc, norm_pcb, norm_ub, stepOfRes]
+  · have hne : t.b.isEmpty = false := by simpa using he
+    simp only [hne, Bool.false_eq_true, ↓reduceIte] at hub ⊢
+    have hres := reserve_norm (ρ' := Rs Unit) t.b.length ⟨rf, st, hp, r⟩ hd hr
+    simp only at hres
+    cases hrv : reserve rf st hp r t.b.length with
+    | ub u => rw [hrv] at hub; exact absurd rfl (hub u)
+    | err hp1 r1 => rt_step [hne, call_norm, hres, hrv, stepOfRes, norm_next, norm_done, norm_pidx, norm_palloc, norm_pcb, norm_ub, stepOfRes]
+    | pidx hp1 r1 => rt_step [hne, call_norm, hres, hrv, stepOfRes, norm_next, norm_done, norm_pidx, norm_palloc, norm_pcb, norm_ub, stepOfRes]
+    | pcb hp1 r1 => exact absurd hrv (reserve_ne_pcb _ _ _ _ _ _ _)
+    | ok v hp1 r1 =>
+      rw [hrv] at hub
+      simp only [writeThenSetLen] at hub ⊢
+      cases hwb : writeBytes hp1 r1 r.len t.b with
+      | error u => rw [hwb] at hub; exact absurd rfl (hub u)
+      | ok p =>
+        obtain ⟨hp2, r2⟩ := p
+        rw [hwb] at hub
+        simp only at hub ⊢
+        obtain ⟨c, hsl, hle⟩ := slice_of_write (ρ := Rs Unit) rf st hwb
+        have hc1 := eq_true (show r.len ≤ r.len + t.b.length ∧ r.len + t.b.length ≤ c from ⟨by omega, hle⟩)
+        have hc2 := eq_true (show t.b.length = r.len + t.b.length - r.len by omega)
+        have hc3 := eq_true (reserve_ok_add hrv)
+        cases hs2 : setLen r2 (r.len + t.b.length) with
+        | error u => rw [hs2] at hub; exact absurd rfl (hub u)
+        | ok r3 =>
+          rt_step [hne, call_norm, hres, hrv, stepOfRes, hsl, hc1, hc2, hc3, Nat.zero_add, hwb, set_len_step, hs2, norm_next, norm_done, norm_pidx, norm_ub, norm_next, norm_done, norm_pidx, norm_palloc, norm_pcb, norm_ub, stepOfRes]
+
 end LS.GenTie
